@@ -646,6 +646,13 @@ func (r *reporter) flush(mets []m3thrift.Metric) []m3thrift.Metric {
 	})
 	if err != nil {
 		r.numWriteErrors.Inc()
+		// n.b. The client gives up on the first error, possibly in the middle
+		//      of the message or of flushing it to several destinations: drop
+		//      what is left in the transport so that it cannot corrupt, or be
+		//      counted against, the next batch.
+		if d, ok := r.client.Transport.(interface{ Discard() }); ok {
+			d.Discard()
+		}
 	}
 
 	// n.b. In the event that we had allocated additional tag storage in
